@@ -190,6 +190,7 @@ func pinnedC13() []*pgen.Case {
 		mk("pin_pkgname_invalid", "// goverter:converter\n// goverter:output:package vcase/pin_pkgname_invalid/p/generated:9x\ntype Converter interface {\n\tM(source int) int\n}\n"),
 		mk("pin_update_func_field", "// goverter:converter\n// goverter:skipCopySameType\ntype Converter interface {\n\t// goverter:update target\n\t// goverter:update:ignoreZeroValueField\n\tM(source struct{ F func() int; V int }, target *Out)\n}\ntype Out struct{ F func() int; V int }\n"),
 		mk("pin_update_func_map", "// goverter:converter\ntype Converter interface {\n\t// goverter:update target\n\t// goverter:update:ignoreZeroValueField:nillable\n\t// goverter:map F F | Identity\n\tM(source In, target *Out)\n}\ntype In struct{ F func() int }\ntype Out struct{ F func() int }\nfunc Identity(f func() int) func() int { return f }\n"),
+		mk("pin_update_map_nosource", "func Make() string { return \"x\" }\ntype In struct{ V int }\ntype Out struct{ V int; F string }\n\n// goverter:converter\ntype Converter interface {\n\t// goverter:update target\n\t// goverter:map F | Make\n\tUpdate(source In, target *Out)\n}\n"),
 		mk("pin_chan_temp", "// goverter:converter\n// goverter:useZeroValueOnPointerInconsistency\n// goverter:skipCopySameType\ntype Converter interface {\n\tM(source *chan int) chan int\n}\n"),
 	}
 }
